@@ -655,6 +655,8 @@ def spec_check(ctx, budget):
         "vs the same chain on the plain str; exhaustive depth-1/2 on short parents then seeded random depth<=6; "
         "non-trivial = distinct (impl, moltype, parent, chain) with non-empty result"
     )
+    from .c01_index import index_op, shape_op
+
     rng = ctx.subrng(f"spec{budget}")
     n_rand = 2500 * budget
     cases = []
@@ -675,6 +677,10 @@ def spec_check(ctx, budget):
         text = "".join(rng.choice(letters) for _ in range(n))
         ops = []
         cur = mt
+        # half of the chains draw slice / index arguments relative to the CURRENT displayed length (tracked on the
+        # plain string), so deep ops still act on non-trivial views and integer indices are mostly in range
+        aware = rng.random() < 0.5
+        shown = text
         for _ in range(rng.randint(1, 6)):
             r = rng.random()
             if cur in ("dna", "rna") and r < 0.2:
@@ -685,6 +691,13 @@ def spec_check(ctx, budget):
             elif cur == "rna" and r < 0.28:
                 ops.append(["to_dna"])
                 cur = "dna"
+            elif aware:
+                op = index_op(rng, len(shown)) if rng.random() < 0.2 else shape_op(rng, len(shown))
+                ops.append(op)
+                try:
+                    shown = shown[op[1]] if op[0] == "i" else shown[slice(op[1], op[2], op[3])]
+                except IndexError:
+                    break
             else:
                 op = _rand_op(rng, n)
                 if op[0] == "s" and op[3] == 0:
@@ -786,6 +799,38 @@ def spec_check(ctx, budget):
             bump(out, "moltype", mt)
             if len(out["samples"]) < 5 and len(ops) > 2 and len(cur) > 2:
                 out["samples"].append(dict(inp, result=cur))
+    # integer indexing (and every other op) on views of every kind, arguments relative to the CURRENT length
+    from .c01_index import index_stream
+
+    index_stream(ctx, out, budget)
+    return out
+
+
+_spec_check_all = spec_check
+
+
+def spec_check(ctx, budget):  # noqa: F811
+    """failures explained by a listed finding WHOSE WITNESS STILL FAILS are counted (histogram `known_finding_hits`) but not
+    returned: the runner replays every witness itself (that is what prints the KNOWN-FINDING line), and it starts the deeper
+    failing-input search only when the first pass returned no spec failure -- so known failures must not occupy that slot"""
+    from .common import load_known
+
+    out = _spec_check_all(ctx, budget)
+    live = []
+    for k in load_known(PROP):
+        try:
+            if "witness" in k and check_witness(ctx, k["witness"]):
+                live.append(k)
+        except Exception:  # noqa: BLE001
+            pass
+    keep = []
+    for f in out["failures"]:
+        hit = next((k for k in live if f.get("kind") == "spec" and match_finding(f, k)), None)
+        if hit:
+            bump(out, "known_finding_hits", hit["id"])
+        else:
+            keep.append(f)
+    out["failures"] = keep
     return out
 
 
@@ -832,6 +877,10 @@ def replay(ctx, data):
     inp = f.get("input")
     if not inp:
         return False
+    if inp.get("stream") == "index":
+        from .c01_index import replay_input
+
+        return replay_input(inp)
     seq = _mk_seq(inp["impl"], inp["moltype"], inp["parent"], inp.get("offset", 0))
     mt, cur = inp["moltype"], inp["parent"]
     for op in inp["chain"]:
@@ -847,6 +896,14 @@ def replay(ctx, data):
 def check_witness(ctx, w):
     """replay a known finding's witness on the real code; return a failure dict if it still fails"""
     out = new_outcome()
+    if w.get("stream") == "index":
+        from .c01_index import run_chain
+
+        prob = run_chain(w["impl"], w["moltype"], w["parent"], w.get("offset", 0), w["chain"])
+        if prob:
+            add_failure(out, "spec", f"[index stream] {prob[0]}", dict(w, chain=prob[4]), prob[1], prob[2], sig=f"index:{w['impl']}:{prob[3]}")
+            return out["failures"][0]
+        return None
     seq = _mk_seq(w["impl"], w["moltype"], w["parent"], w.get("offset", 0))
     mt, cur = w["moltype"], w["parent"]
     for op in w["chain"]:
